@@ -98,6 +98,13 @@ pub fn dec_call(
 
 /// Flat (non-wrapping) output buffer, input fed in chunks, per-call budgets.
 /// `announce_more_on_last`: keep HAS_MORE_INPUT set even for the last chunk.
+thread_local! {
+    /// the caller never sets the has-more-input flag although it keeps supplying input, and carries
+    /// on after FailedCannotMakeProgress ("if you call the inflator again with more bytes it'll try to
+    /// continue processing the input")
+    pub static LIE_NO_MORE: std::cell::Cell<bool> = std::cell::Cell::new(false);
+}
+
 pub fn drive_flat(
     tr: &mut Tr,
     obj: u32,
@@ -143,7 +150,8 @@ pub fn drive_flat_off(
             avail_end = (avail_end + chunks[ci]).min(z.len());
             ci += 1;
         }
-        let has_more = ci < chunks.len() || announce_more_on_last;
+        let lie = LIE_NO_MORE.with(|c| c.get());
+        let has_more = (ci < chunks.len() || announce_more_on_last) && !lie;
         let flags = base_flags | TINFL_FLAG_USING_NON_WRAPPING_OUTPUT_BUF | if has_more { TINFL_FLAG_HAS_MORE_INPUT } else { 0 };
         let b = if idle >= 3 { usize::MAX } else { budget.next(r) };
         let (st, used, w) = match dec_call(tr, obj, &mut d, &z[in_pos..avail_end], &mut out, out_pos, b, flags) {
@@ -176,6 +184,7 @@ pub fn drive_flat_off(
                     break;
                 }
             }
+            TINFLStatus::FailedCannotMakeProgress if lie && (ci < chunks.len() || in_pos < avail_end) => {}
             _ => break,
         }
         if progressed || (in_pos == avail_end && ci < chunks.len()) {
@@ -224,7 +233,8 @@ pub fn drive_ring(
             avail_end = (avail_end + chunks[ci]).min(z.len());
             ci += 1;
         }
-        let has_more = ci < chunks.len();
+        let lie = LIE_NO_MORE.with(|c| c.get());
+        let has_more = ci < chunks.len() && !lie;
         let flags = base_flags | if has_more { TINFL_FLAG_HAS_MORE_INPUT } else { 0 };
         let out_pos = if ring == 0 { 0 } else { total_out & (ring - 1) };
         let b = if idle >= 3 { usize::MAX } else { budget.next(r) };
@@ -258,6 +268,7 @@ pub fn drive_ring(
                     break;
                 }
             }
+            TINFLStatus::FailedCannotMakeProgress if lie && (ci < chunks.len() || in_pos < avail_end) => {}
             _ => break,
         }
         if progressed || (in_pos == avail_end && ci < chunks.len()) {
